@@ -218,8 +218,7 @@ def rule_r3(ctx, rid="C12.R3"):
             ctx.r.violation(rid, key_of(f, None, "disconnect-outside-lock"), "handle_close clears connected outside the output lock (lost wake-up window)", f.loc(s.ast))
 
 
-def rule_r4(ctx):
-    rid = "C12.R4"
+def rule_r4(ctx, rid="C12.R4"):
     ctx.r.rule(rid, "wait and notify use the one output condition while holding it")
     p = ctx.p
     lk = get_locks(p)
@@ -425,7 +424,14 @@ def rule_r8(ctx, rid="C12.R8"):
                         % origin, p.functions[origin].loc() if origin in p.functions else "src/waitress/channel.py", {"call_chain": ch})
 
 
-RULES = [rule_r1, rule_r2, rule_r3, rule_r4, rule_r5, rule_r6, rule_r7, rule_r8]
+def rule_r9(ctx):
+    """Shared with C13.R5: 'released promptly ... if the client disconnects' - a socket error met by a flush always marks
+    the channel for closing (the teardown is what notifies the paused producer)."""
+    from . import c13
+    c13.rule_r5(ctx, rid="C12.R9")
+
+
+RULES = [rule_r1, rule_r2, rule_r3, rule_r4, rule_r5, rule_r6, rule_r7, rule_r8, rule_r9]
 
 from ..selftest import M, T, V  # noqa: E402
 
